@@ -158,6 +158,13 @@ func (s *MemoryAllocationStore) SaveAllocation(ctx context.Context, alloc Alloca
 		}
 	}
 
+	// Replacing a record that had a different prefix: drop its old IP index entry
+	if old, exists := s.byPool[alloc.PoolID][alloc.SubscriberID]; exists {
+		if oldKey := old.Prefix.IP.String(); oldKey != ipKey {
+			delete(s.byIP, oldKey)
+		}
+	}
+
 	// Update pool index
 	if s.byPool[alloc.PoolID] == nil {
 		s.byPool[alloc.PoolID] = make(map[string]AllocationRecord)
